@@ -37,13 +37,14 @@ type History struct {
 	Tag    int
 	ReplID string
 	Base   int64 // offset of the first byte of command 0
+	Root   int   // tag of the history this one descends from (its own tag if none)
 	tags   []int // creator tag per command
 	buf    []byte
 }
 
 // NewHistory creates an empty history whose stream starts at offset base.
 func NewHistory(tag int, base int64) *History {
-	return &History{Tag: tag, ReplID: ReplIDOf(tag), Base: base}
+	return &History{Tag: tag, ReplID: ReplIDOf(tag), Base: base, Root: tag}
 }
 
 func encodeSet(key, val string) []byte {
@@ -70,7 +71,7 @@ func (h *History) Fork(tag int, atCmd int) *History {
 	if atCmd < 0 || atCmd > len(h.tags) {
 		panic("sourced: fork point out of range")
 	}
-	n := &History{Tag: tag, ReplID: ReplIDOf(tag), Base: h.Base}
+	n := &History{Tag: tag, ReplID: ReplIDOf(tag), Base: h.Base, Root: h.Root}
 	n.tags = append([]int(nil), h.tags[:atCmd]...)
 	n.buf = append([]byte(nil), h.buf[:atCmd*CmdLen]...)
 	return n
@@ -136,10 +137,15 @@ func (h *History) OnLineage(o *History, ncmds int) bool {
 // MarkerKey names the snapshot of this history taken after ncmds commands.
 func (h *History) MarkerKey(ncmds int) string { return fmt.Sprintf("snap:h%d:%03d", h.Tag, ncmds) }
 
+// PreKey is the key of the data the master held before the first byte of the stream
+// (a master has data at replication offset Base; only a snapshot can carry it).
+func (h *History) PreKey() string { return fmt.Sprintf("pre:h%d", h.Root) }
+
 // SnapshotKeys lists the keys of the snapshot taken after ncmds commands: the whole
-// dataset (one key per command) followed by the marker key.
+// dataset (the pre-stream key, one key per command) followed by the marker key.
 func (h *History) SnapshotKeys(ncmds int) []string {
-	keys := make([]string, 0, ncmds+1)
+	keys := make([]string, 0, ncmds+2)
+	keys = append(keys, h.PreKey())
 	for i := 0; i < ncmds; i++ {
 		keys = append(keys, h.Key(i))
 	}
